@@ -14,3 +14,31 @@ package js_printer
 //@   opt frame-only
 //@   opt frame-forbid js_ast_
 //@   modifies nothing
+
+// ----------------------------------------------------------------------------------------------
+// C01 / C16: string and template contents are printed from UTF-16 code units; the look-ahead reads
+// (the digit after NUL, "</script", "${", surrogate pairs) stay inside the text, and the loop makes progress.
+// Assumed (object invariant of the printer's line bookkeeping, not verified here): the current line length is
+// between 0 and the number of bytes printed so far.
+//@ func (*printer).currentLineLength
+//@   trusted
+//@   modifies printer.oldLineStart, printer.oldLineEnd
+//@   ensures 0 <= result && result <= len(p.js)
+
+//@ func (*printer).printUnquotedUTF16
+//@   arith int
+//@   safety
+//@   prop C01 C16
+//@   requires p != nil
+//@   requires p.options.LineLimit <= 281474976710656
+//@   requires quote == '"' || quote == '\'' || quote == '`'
+// C01, literal extent and charset: with the ASCII charset only ASCII bytes are emitted; the delimiter is never
+// emitted raw (it is always preceded by a backslash emitted by this function); a raw line feed is emitted only
+// inside a template literal or as a line continuation right after a backslash; a raw carriage return never.
+//@   site ascii-only: [C01] append requires p.options.ASCIIOnly && !opaque ==> each(elem < 128)
+//@   site delimiter-escaped: [C01] append requires !opaque ==> each(int32(elem) == quote ==> hasPrev && prev == '\\')
+//@   site raw-newline: [C01] append requires !opaque ==> each((elem == '\n' ==> quote == '`' || (hasPrev && prev == '\\')) && elem != '\r')
+//@   loop 0 invariant 0 <= i && i <= n && n == len(text) && len(temp) == 4
+//@   loop 0 invariant wrapLongLines ==> p.options.LineLimit > 0 && -i - p.options.LineLimit <= startLineLength && startLineLength <= p.options.LineLimit
+//@   loop 0 decreases n - i
+//@   loop 1 invariant 0 <= j && j <= 6 && 1 <= i && i + 6 <= len(text) && n == len(text) && i <= n && len(temp) == 4
